@@ -21,6 +21,11 @@ reaching its end time or at a logical step cap raised from a coupling observer -
   c20.diff_state          diffusion: current time (value), profile, recorded profiles and recorded times bit-identical;
                           with recording off the recorded arrays of the loaded model are None (or a saved None)
 
+Several save points of ONE run (mech deferred=True): in runs with >= 2 solve calls every save point is additionally saved under a
+name that contains dots and differs from the other save points' names only after its last dot (..._723.05K, ..._723.15K; the third
+with the .npz suffix when the case uses suffixes); only after the LAST save are the files asserted to exist on disk (name + '.npz')
+and each name loaded into a fresh model and compared bit for bit with the snapshot taken when it was saved.
+
 Recording-option histories ("whatever the recording options ... or point between solve calls"): besides recording on / off for
 the whole run, cases switch the public recording toggles between solve calls and save afterwards - recorded -> disableRecording
 -> solved further -> saved; recorded -> disabled -> saved without another solve; not recorded -> enableRecording -> solved ->
@@ -208,6 +213,25 @@ def _first_diff(a, b):
         return {'n_different': int(d.size), 'first_index': i, 'original': float(a.ravel()[i]), 'loaded': float(b.ravel()[i])}
     except Exception as e:          # diagnostic only
         return {'undescribable': repr(e)[:100]}
+
+
+def _cp(a):
+    return None if a is None else np.array(a, copy=True)
+
+
+def _dotted_name(scratch, case, i, stem):
+    """save-point names of ONE run that contain dots and differ only after their last dot (e.g. ..._723.05K, ..._723.15K); the first two
+    never carry the .npz suffix, the third does when the case uses suffixes"""
+    name = os.path.join(scratch, 'c20_%d_%d_%s_723.%d5K' % (os.getpid(), case['idx'], stem, i))
+    return name + ('.npz' if (i >= 2 and case.get('ext')) else '')
+
+
+def _deferred_files(R, names, mech):
+    """every given name (+ '.npz' unless it already ends with it) is a file of its own on disk"""
+    for i, name in names:
+        path = name if name.endswith('.npz') else name + '.npz'
+        R.check('c20.load_no_exception', os.path.isfile(path), dict(mech, op='file_present', deferred=True), save_point=i, expected=os.path.basename(path),
+                present=sorted(f for f in os.listdir(os.path.dirname(path)) if f.startswith(os.path.basename(name).split('_723.')[0])))
 
 
 def _deck(rng, options, n):
@@ -442,6 +466,7 @@ def _run_precip(case, R):
             model.setPSDrecording(action == 'on')
             R.observe('psd_recording_switched_' + action)
     total_steps = 0
+    deferred = []
     for i, call in enumerate(case['calls']):
         toggle(toggles[i][0])
         obs.steps, obs.max_steps, obs.capped = 0, int(call['steps']), False
@@ -464,11 +489,47 @@ def _run_precip(case, R):
         R.observe('save_points_after_capped_call' if capped else 'save_points_after_completed_call')
         toggle(toggles[i][1])
         nt = _check_precip_save_point(case, R, model, sm, i, mech0, scratch)
+        if len(case['calls']) >= 2:
+            name = _dotted_name(scratch, case, i, 'prec')
+            try:
+                model.save(name)
+                deferred.append((i, name, {'hist': {k: _cp(getattr(model.pData, k)) for k in precip.HISTORIES}, 'n': int(model.pData.n),
+                                           'pbm': [{a: _cp(getattr(pb, a)) for a in ('PSD', 'PSDbounds', 'PSDsize')} for pb in model.PBM],
+                                           'ar': [_cp(a) for a in model.eqAspectRatio]}))
+            except Exception as e:
+                R.exception('c20.load_no_exception', e, dict(mech0, op='save', deferred=True))
         R.info['save_points'].append({'call': i, 'steps': obs.steps, 'capped': capped, 't': float(model.pData.time[model.pData.n]),
                                       'density': model.pData.precipitateDensity[model.pData.n], 'bins': [int(p.bins) for p in model.PBM],
                                       'nontrivial': nt})
         if nt:
             R.add_nontrivial('precip-%s-call%d' % (core.case_hash(cfg), i))
+    # ---- several save points of this run under dotted names: all loaded back only now, each compared with its own snapshot
+    if deferred:
+        md = dict(mech0, deferred=True)
+        try:
+            _deferred_files(R, [(i, name) for i, name, _ in deferred], md)
+            for i, name, snap in deferred:
+                fresh = _build_precip(cfg)
+                try:
+                    fresh.load(name)
+                except Exception as e:
+                    R.exception('c20.load_no_exception', e, dict(md, op='load'))
+                    continue
+                R.count('c20.load_no_exception')
+                for k in precip.HISTORIES:
+                    a, b = snap['hist'][k], getattr(fresh.pData, k, None)
+                    R.check('c20.prec_histories', _biteq(a, b), dict(md, attr=k), save_point=i, original=_describe(a), loaded=_describe(b),
+                            diff=_first_diff(a, b) if b is not None else None)
+                R.check('c20.prec_histories', int(fresh.pData.n) == snap['n'], dict(md, attr='n'), save_point=i, original=snap['n'], loaded=int(fresh.pData.n))
+                for p, ph in enumerate(model.phases):
+                    for a_ in ('PSD', 'PSDbounds', 'PSDsize'):
+                        a, b = snap['pbm'][p][a_], getattr(fresh.PBM[p], a_, None)
+                        R.check('c20.prec_state', _biteq(a, b), dict(md, attr=a_), save_point=i, phase=str(ph), original=_describe(a), loaded=_describe(b),
+                                diff=_first_diff(a, b) if b is not None else None)
+                    R.check('c20.prec_state', _biteq(snap['ar'][p], fresh.eqAspectRatio[p]), dict(md, attr='eqAspectRatio'), save_point=i, phase=str(ph))
+        finally:
+            _rm(*[name for _, name, _ in deferred])
+        R.observe('deferred_save_points', len(deferred))
     R.set_nontrivial(False)
 
 
@@ -687,6 +748,7 @@ def _run_diffusion(case, R):
             model.removeRecordedData()
         if action is not None:
             R.observe('recording_switched_' + action)
+    deferred = []
     for i, nsteps in enumerate(case['calls']):
         toggle(toggles[i][0])
         obs.steps, obs.max_steps, obs.capped = 0, 4 * int(nsteps) + 10, False
@@ -705,6 +767,14 @@ def _run_diffusion(case, R):
         m1 = dict(mech0, filename='with_extension' if case['ext'] else 'without_extension')
         base = os.path.join(scratch, 'c20_%d_%d_%d_diff' % (os.getpid(), case['idx'], i))
         fn = base + ('.npz' if case['ext'] else '')
+        if len(case['calls']) >= 2:
+            name = _dotted_name(scratch, case, i, 'diff')
+            try:
+                model.save(name)
+                deferred.append((i, name, {'t': float(model.t), 'x': _cp(model.x), '_recordedX': _cp(model._recordedX),
+                                           '_recordedTime': _cp(model._recordedTime), 'mech': dict(mech0, deferred=True)}))
+            except Exception as e:
+                R.exception('c20.load_no_exception', e, dict(mech0, op='save', deferred=True))
         try:
             try:
                 model.save(fn)
@@ -754,6 +824,33 @@ def _run_diffusion(case, R):
                     R.observe('continue_after_load_raised')
         finally:
             _rm(fn, base)
+    # ---- several save points of this run under dotted names: all loaded back only now, each compared with its own snapshot
+    if deferred:
+        try:
+            _deferred_files(R, [(i, name) for i, name, _ in deferred], dict(mech0, deferred=True))
+            for i, name, snap in deferred:
+                md = snap['mech']
+                fresh = _build_diffusion(case, ttot)
+                try:
+                    fresh.load(name)
+                except Exception as e:
+                    R.exception('c20.load_no_exception', e, dict(md, op='load'))
+                    continue
+                R.count('c20.load_no_exception')
+                try:
+                    tb = float(fresh.t)
+                except Exception:
+                    tb = None
+                R.check('c20.diff_state', tb is not None and _biteq(np.float64(snap['t']), np.float64(tb)), dict(md, attr='t'), save_point=i,
+                        original=snap['t'], loaded=tb)
+                R.check('c20.diff_state', _biteq(snap['x'], fresh.x), dict(md, attr='x'), save_point=i, diff=_first_diff(snap['x'], fresh.x))
+                for attr in ('_recordedX', '_recordedTime'):
+                    a, b = snap[attr], getattr(fresh, attr)
+                    ok = _none_like(b) if a is None else _biteq(a, b)
+                    R.check('c20.diff_state', ok, dict(md, attr=attr), save_point=i, original=_describe(a), loaded=_describe(b))
+        finally:
+            _rm(*[name for _, name, _ in deferred])
+        R.observe('deferred_save_points', len(deferred))
     R.set_nontrivial(False)
 
 
